@@ -13,7 +13,8 @@ PROP = 'C15'
 NEVER = {'self', '__init__', 'print', 'Exception', 'Int', 'Str', 'Float', 'Bool', 'None', 'True', 'False', 'List', 'Set', 'Any'}
 ADVERSARIAL = ['size', 'init', 'super', 'math', 'typing', 'abc', 'Optional', 'Union', 'NewType', 'ABC', 'abstractmethod', 'int', 'str', 'float', 'bool', 'list', 'set', 'dict',
                'isinstance', 'slice', 'value', 'value_', 'other', 'cls', 'object', 'type_', 'len', 'sum', 'id', 'name2', 'x1', 'x_', '_x', '__x', 'x__', '_', 'q', 'I', 'O0',
-               'a' * 40, 'Sqrt', 'Print', 'sqrt_', 'mod_', 'handle_', 'Tuple_', 'Callable_', 'main', 'result', 'e', 'err2', 'args', 'kwargs', 'range_']
+               'a' * 40, 'Sqrt', 'Print', 'sqrt_', 'mod_', 'handle_', 'Tuple_', 'Callable_', 'main', 'result', 'e', 'err2', 'args', 'kwargs', 'range_',
+               'next', 'iter', 'hash', 'repr', 'contains', 'eq', 'call', 'getitem', 'enter', 'exit', 'new', 'del_']
 ORDINARY = ['alpha', 'beta', 'gamma', 'delta', 'total', 'count', 'amount', 'step', 'walk', 'item', 'node', 'left', 'right', 'flag', 'name', 'label', 'idx', 'acc', 'tmp', 'res',
             'zeta', 'omega', 'kappa', 'sigma', 'theta', 'lam', 'mu', 'nu', 'xi', 'rho', 'tau', 'phi', 'chi', 'psi', 'first', 'second', 'third', 'head', 'tail', 'body']
 MAMBA_KW = {'from', 'type', 'class', 'pure', 'as', 'import', 'forward', 'vararg', 'def', 'fin', 'and', 'or', 'not', 'is', 'isa', 'mod', 'sqrt', 'while', 'for', '_and_', '_or_',
